@@ -7,6 +7,8 @@ From EG Require Import Base.Prelude Base.Casts Model.Geometry Model.Rrect Model.
 From EG Require Import Gen.SrcGeometry Gen.SrcImage Gen.SrcRawIter Gen.SrcImagePixels Gen.SrcFont Gen.SrcText Gen.SrcGlyph Gen.SrcCircle Gen.SrcRrect Gen.SrcRrect2 Gen.SrcImageDraw.
 From EG Require Import Proofs.SrcGeometry Proofs.SrcColor Proofs.SrcImagePixels.
 Set Default Timeout 60.
+(* Model/Imageraw.v fixes usize at 64 bit: the generated definitions are taken at that width *)
+#[local] Existing Instance Casts.usize64_w.
 
 Definition log_fill (log : list (rect * ContiguousPixels)) (r : rect) (c : ContiguousPixels) : list (rect * ContiguousPixels) * (unit + unit) :=
   (log ++ [(r, c)], inl tt).
